@@ -54,6 +54,7 @@ pub struct Obj {
     pub zero_in_collection: bool,
     pub bulk_strong: u32,
     pub bulk_weak: u32,
+    pub slack_strong: u32, // strong pointers leaked by an unwound call (observed, tainted objects only)
     pub map: Option<ObjId>,   // Node -> its cleaner map object
     pub owner: Option<ObjId>, // Map -> owning node
     pub stamp: u64,           // last finalization batch in which it was seen unreachable
@@ -94,6 +95,7 @@ impl Obj {
             tainted: false,
             zero_in_collection: false,
             bulk_strong: 0,
+            slack_strong: 0,
             bulk_weak: 0,
             map: None,
             owner: None,
@@ -228,6 +230,8 @@ pub struct Model {
     pub fault_op: Option<(u32, u32)>, // (op index, live objects) when the first fault fired
     pub prev_buffer: std::collections::BTreeSet<ObjId>,
     pub last_threshold: usize,
+    pub initial_threshold: usize, // byte threshold of a fresh configuration, read at the start of the run (0 = unknown)
+    pub fresh_cfg: Knobs,         // the other settings of that fresh configuration
     pub fault_counters_final: [u32; FaultKind::COUNT],
 }
 
@@ -388,6 +392,8 @@ impl World {
                 fault_op: None,
                 prev_buffer: Default::default(),
                 last_threshold: 0,
+                initial_threshold: 0,
+                fresh_cfg: Knobs { auto: true, buffered: 0, permille: 100 },
                 fault_counters_final: [0; FaultKind::COUNT],
             }),
             t: RefCell::new(Tables {
@@ -510,6 +516,8 @@ impl World {
         n += m.tls_roots.iter().filter(|r| **r == o).count() as u32;
         n += m.objs[o as usize].bulk_strong;
         n += m.in_edges.get(o as usize).copied().unwrap_or(0);
+        // pointers leaked by an unwound call (only ever non-zero for objects that call involved)
+        n += m.objs[o as usize].slack_strong;
         n
     }
 
